@@ -40,22 +40,25 @@ def render(ev, epoch):
         Expiry = DQUOTE ISOTime DQUOTE / "NEVER"
     """
     err = ev["addr"] == ERROR
+    # "errkw": False renders an <error> line the way Tors older than the error= keyword did:
+    # the <error> address alone says that the lookup failed
+    errkw = err and ev.get("errkw", True)
     out = [ev["name"], ev["addr"]]
     form = ev["form"]
     if ev["exp"] is None:
         out.append("NEVER")
-        if err:
+        if errkw:
             out.append("error=yes")
         if form == "never-cached":
             out.append('CACHED="%s"' % ev.get("cached", "NO"))
     else:
         t = iso(epoch, ev["exp"])
         out.append('"%s"' % iso(epoch, ev["exp"] + ev.get("tzoff", 0)))
-        if err:
+        if errkw:
             out.append("error=yes")
-        if form == "positional" and not err:
+        if form == "positional" and not errkw:
             out.append('"%s"' % t)
-        elif form in ("expires", "cached") or err:
+        elif form in ("expires", "cached", "positional"):
             out.append('EXPIRES="%s"' % t)
         if form == "cached":
             out.append('CACHED="%s"' % ev.get("cached", "NO"))
@@ -193,6 +196,13 @@ def selftest():
     assert render(e5, epoch) == 'example.com 192.0.43.10 "2013-04-03 11:00:00" EXPIRES="2013-04-03 09:00:00" CACHED="NO"'
     e6 = dict(e1, form="positional", tzoff=-12600)
     assert render(e6, epoch) == 'example.com 192.0.43.10 "2013-04-03 05:30:00" "2013-04-03 09:00:00"'
+    assert render(dict(e3, form="local", errkw=False), epoch) == 'example.invalid <error> "2013-04-03 06:01:00"'
+    assert render(dict(e3, form="expires", errkw=False), epoch) == \
+        'example.invalid <error> "2013-04-03 06:01:00" EXPIRES="2013-04-03 06:01:00"'
+    assert render(dict(e3, form="positional", errkw=False, tzoff=3600), epoch) == \
+        'example.invalid <error> "2013-04-03 07:01:00" "2013-04-03 06:01:00"'
+    assert render(dict(e3, form="local"), epoch) == 'example.invalid <error> "2013-04-03 06:01:00" error=yes'
+    assert render(dict(e3, exp=None, form="never", errkw=False), epoch) == 'example.invalid <error> NEVER'
     e4 = {"name": "a.example", "addr": "10.0.0.1", "exp": 62, "form": "local"}
     assert render(e4, epoch) == 'a.example 10.0.0.1 "2013-04-03 06:01:02"'
     n += 4
